@@ -379,6 +379,7 @@ pub fn extra_fault_texts() -> Vec<String> {
     const OFFENDERS: [&str; 12] = ["§", "(", ")", "{", "}", "[", "]", ";", ",", "=", "3", "x"];
     let mut v = Vec::new();
     for t in crate::props::c04::EXTRA_VALID {
+        let t = t.replace('¤', " ");
         let toks: Vec<&str> = t.split(' ').collect();
         for i in 0..toks.len() {
             let mut del = toks.clone();
